@@ -78,8 +78,13 @@ def run_shards(check, specs, tier, nproc, stall_s, log=None):
                 json.dump(spec, open(sf, "w"))
                 open(hb, "w").close()
                 errf = open(os.path.join(tmp, "err_%d.txt" % i), "wb")
-                p = subprocess.Popen([PY, "-X", "faulthandler", "-m", "vf.worker", check, sf, of, hb, wal],
-                                     cwd=VERIF, env=worker_env(spec.get("seed", 0)), stdout=errf, stderr=subprocess.STDOUT)
+                # the interpreter the library is used under varies by shard: plain, python -O (assert statements and
+                # __debug__ blocks removed), and warnings raised by the package turned into errors
+                mode = ("plain", "optimized", "plain", "package-warnings-are-errors")[i % 4] if os.environ.get("VERIF_INTERPRETER_MODES", "1") != "0" else "plain"
+                wenv = worker_env(spec.get("seed", 0))
+                wenv["VERIF_INTERPRETER_MODE"] = mode
+                p = subprocess.Popen([PY] + (["-O"] if mode == "optimized" else []) + ["-X", "faulthandler", "-m", "vf.worker", check, sf, of, hb, wal],
+                                     cwd=VERIF, env=wenv, stdout=errf, stderr=subprocess.STDOUT)
                 running[i] = (p, spec, of, hb, wal, errf, time.time())
             time.sleep(0.05)
             for i in list(running):
